@@ -104,7 +104,7 @@ func init() {
 		case "C14", "C20":
 			// the goroutine wrapper raft.Node (node.go), which the simulator
 			// bypasses by driving RawNode
-			pc.ExtraPkgs = []extraPkg{{Pkg: "./nodeapi", Run: "^TestNodeAPI$", Quick: 100, Thorough: 5000}}
+			pc.ExtraPkgs = []extraPkg{{Pkg: "./nodeapi", Run: "^TestNodeAPI$", Quick: 100, Thorough: 3000}}
 		}
 		props[id] = pc
 	}
